@@ -108,10 +108,15 @@ var solvers = []solverSpec{
 }
 
 func runSolver(ctx context.Context, sp solverSpec, file string, timeoutS int) (status, raw string, dur float64) {
-	args := sp.args(file, timeoutS)
-	cctx, cancel := context.WithTimeout(ctx, time.Duration(timeoutS+2)*time.Second)
+	// The limit is CPU time of the solver process (ulimit -t), so that the answer does not
+	// depend on what else the machine is doing; the wall-clock limits handed to the solver
+	// and to the context are only a backstop at eight times that.
+	wall := 8 * timeoutS
+	args := sp.args(file, wall)
+	cctx, cancel := context.WithTimeout(ctx, time.Duration(wall+2)*time.Second)
 	defer cancel()
-	cmd := exec.CommandContext(cctx, args[0], args[1:]...)
+	shArgs := append([]string{"-c", fmt.Sprintf("ulimit -t %d; exec \"$@\"", timeoutS), "sh"}, args...)
+	cmd := exec.CommandContext(cctx, "sh", shArgs...)
 	start := time.Now()
 	out, _ := cmd.CombinedOutput()
 	dur = time.Since(start).Seconds()
